@@ -154,6 +154,35 @@ Example C14_example_reachable :
             sm_get (t_nodes t) k2 = None /\ get_node_context t k2' = Some 7%N.
 Proof. split; [exact good_history_pre | exact good_history_run]. Qed.
 
+(* the premises of C14_slot_reuse / C14_ctx_inv_preserved are met along that history: before `remove(k2)` the key is live and
+   no version is near 2^32; the remove succeeds; no_wrap holds at every later state (nowrap_hist); and the very next creation
+   returns the SAME slot with a different version (k2' = slot 2, version 3), i.e. the reuse the theorem speaks about happens *)
+Definition st5 : tree := match run tree_new (firstn 5 good_history) with Ok (t, _) => t | Panic => tree_new end.
+Definition st6 : tree := match step st5 (ORemove k2) with Ok (t, _) => t | Panic => st5 end.
+
+Example C14_example_slot_reuse_premises :
+  run tree_new (firstn 5 good_history) = Ok (st5, [RKey k1; RKey k2; RKey k3; RUnit; RUnit]) /\
+  tlive st5 k2 /\ no_wrap (t_nodes st5) /\ step st5 (ORemove k2) = Ok (st6, RKey k2) /\
+  nowrap_hist st6 [ONewLeafCtx 7; OSetChildren k3 [k2']] /\
+  next_key st6 = k2' /\ fst k2' = fst k2 /\ k2' <> k2 /\ ctx_inv st6.
+Ltac nowrap := unfold no_wrap; apply Forall_forall; let s := fresh "s" in let Hs := fresh "Hs" in
+  intros s Hs; vm_compute in Hs; repeat (destruct Hs as [Hs|Hs]; [subst s; reflexivity|]); destruct Hs.
+Proof.
+  split; [vm_compute; reflexivity|].
+  split; [vm_compute; discriminate|].
+  split; [nowrap|].
+  split; [vm_compute; reflexivity|].
+  split.
+  { cbn [nowrap_hist]. split; [nowrap|].
+    intros t' out H. vm_compute in H. injection H as <- <-.
+    split; [nowrap|].
+    intros t' out H. vm_compute in H. injection H as <- <-.
+    nowrap. }
+  split; [vm_compute; reflexivity|]. split; [reflexivity|]. split; [discriminate|].
+  intros idx ver c H.
+  (destruct idx as [|[|[|[|idx]]]]; vm_compute in H; try discriminate; destruct idx; discriminate).
+Qed.
+
 Example C14_pre_needed_example :
   (exists t outs, run tree_new bad_history = Ok (t, outs) /\
                   children t k1 = Ok [k3] /\ children t k2 = Ok [k3] /\ parent t k3 = Ok (Some k2) /\ ~ WF t) /\
